@@ -183,20 +183,22 @@ theorem built_fee_tight_partial (p : FeeParams) (a b : ℤ) (T : ℚ) (fake real
 
 /-! ## the placeholder witnesses of `_build_fake_vkey_witnesses` (model: `fakeKey`, `fakeKeys`, `fakeWitnessSet`) -/
 
-/-- the intended statement: a witness count of `n` yields `n` placeholders -/
-def fake_witness_count_goal : Prop := ∀ n, (fakeKeys n).length = n
+/-- **a witness count of `n` yields `n` pairwise distinct placeholders**, for every count the code can run
+(`n ≤ 2^256`: every index `i < n` passes `i.to_bytes(32, "big")`): XOR with the constant masks is one-to-one, the
+32-byte big-endian encoding is one-to-one below `2^256`, so the `OrderedSet` drops nothing and the placeholders are
+`fakeKey 0, …, fakeKey (n-1)` in order -/
+theorem fake_witness_count (n : ℕ) (h : n ≤ 2 ^ 256) :
+    (fakeKeys n).length = n ∧ (fakeKeys n).Nodup ∧ fakeKeys n = (List.range n).map fakeKey := by
+  obtain ⟨h1, h2⟩ := fakeKeys_eq n h
+  exact ⟨fakeKeys_length n h, by rw [h1]; exact h2, h1⟩
 
-/-- it holds up to 256: the masks `5797…f9` / `577c…03` keep every bit of the last byte of the index somewhere
-(`f9 | 5d | 03 = ff`), so the first 256 placeholders are pairwise different and the `OrderedSet` keeps them all -/
-theorem fake_witness_count_partial (n : ℕ) (h : n ≤ 256) : (fakeKeys n).length = n := fakeKeys_length n h
+/-- different indices below `2^256` give different placeholders -/
+theorem fake_witness_inj (i j : ℕ) (hi : i < 2 ^ 256) (hj : j < 2 ^ 256) (h : fakeKey i = fakeKey j) : i = j :=
+  fakeKey_inj i j hi hj h
 
-/-- and fails at 257: the masks lose bit 0 of the second-lowest byte (`7e`, `1a`, `6a` are all even), placeholder 256
-equals placeholder 0 and is dropped by the `OrderedSet` — the fake transaction then has one witness fewer than counted -/
-theorem fake_witness_count_counterexample : ¬ fake_witness_count_goal := by
-  intro h
-  have h1 := h 257
-  have h2 := fakeKeys_257
-  omega
+/-- what the MODEL does at the bound (deviation note of `Model/SizeDom.lean`): index `2^256` wraps to index 0, where
+`i.to_bytes(32, "big")` raises `OverflowError`; hence no statement is made for a count above `2^256` -/
+theorem fake_witness_model_wraps_at_bound : fakeKey (2 ^ 256) = fakeKey 0 := fakeKey_wraps
 
 /-- every placeholder has a 32-byte key and a 64-byte signature -/
 theorem fake_witness_shape (n : ℕ) (w : Bytes × Bytes) (h : w ∈ fakeKeys n) : w.1.length = 32 ∧ w.2.length = 64 := by
@@ -211,11 +213,11 @@ theorem fake_witnesses_dominate (n : ℕ) (real : List (Bytes × Bytes)) (hl : r
   have := witList_dom (fakeKeys n) real hl (fun f hf => fake_witness_shape n f hf) hr
   simpa [fakeWitnessSet, domB] using this
 
-/-- with the count: up to 256 required keys, any subset of them signing -/
-theorem fake_witnesses_dominate_upto (n : ℕ) (hn : n ≤ 256) (real : List (Bytes × Bytes)) (hl : real.length ≤ n)
+/-- with the count: `n` required keys (any `n` the code can run), any `k ≤ n` of them signing -/
+theorem fake_witnesses_dominate_upto (n : ℕ) (hn : n ≤ 2 ^ 256) (real : List (Bytes × Bytes)) (hl : real.length ≤ n)
     (hr : ∀ r ∈ real, r.1.length ≤ 32 ∧ r.2.length ≤ 64) :
     domB (fakeWitnessSet n) (.tag 258 (.array (real.map witItem))) = true :=
-  fake_witnesses_dominate n real (by rw [fake_witness_count_partial n hn]; exact hl) hr
+  fake_witnesses_dominate n real (by rw [(fake_witness_count n hn).1]; exact hl) hr
 
 /-! ## non-vacuity: a miniature fake / signed pair evaluated by the kernel -/
 
@@ -253,8 +255,8 @@ example : Pyc.FeeLoop.loop (fun f => 255 + (if f < 256 then 3 else 4)) 5 250 = s
     ∧ (259 : ℤ) ≤ (fun f : ℤ => 255 + (if f < 256 then 3 else 4)) 259 + 1 := by decide
 
 /-- three placeholders, as `TransactionWitnessSet(vkey_witnesses=…)` writes them under key 0: 2 + 1 + 1 + 3·101 bytes;
-placeholder 2 has the key of placeholder 0 (`f9 & 02 = 0`) and differs from it in the signature only -/
-example : size (fakeWitnessSet 3) = 307 ∧ (fakeKey 2).1 = (fakeKey 0).1 ∧ (fakeKey 2).2 ≠ (fakeKey 0).2 := by decide +kernel
+placeholder 256 differs from placeholder 0 (the collision of the former AND masks is gone) -/
+example : size (fakeWitnessSet 3) = 307 ∧ (fakeKey 256).1 ≠ (fakeKey 0).1 ∧ (fakeKey 0).1 = maskVkey := by decide +kernel
 
 end Pyc.C07.SizeDom
 
@@ -278,8 +280,9 @@ end Pyc.C07.SizeDom
 #print axioms Pyc.C07.SizeDom.slack_spec
 #print axioms Pyc.C07.SizeDom.fee_loop_tight
 #print axioms Pyc.C07.SizeDom.built_fee_tight_partial
-#print axioms Pyc.C07.SizeDom.fake_witness_count_partial
-#print axioms Pyc.C07.SizeDom.fake_witness_count_counterexample
+#print axioms Pyc.C07.SizeDom.fake_witness_count
+#print axioms Pyc.C07.SizeDom.fake_witness_inj
+#print axioms Pyc.C07.SizeDom.fake_witness_model_wraps_at_bound
 #print axioms Pyc.C07.SizeDom.fake_witness_shape
 #print axioms Pyc.C07.SizeDom.fake_witnesses_dominate
 #print axioms Pyc.C07.SizeDom.fake_witnesses_dominate_upto
